@@ -21,7 +21,16 @@ import (
 
 type Rng struct{ s uint64 }
 
-func NewRng(seed uint64) *Rng { return &Rng{s: seed*0x9E3779B97F4A7C15 + 0x1234567} }
+// NewRng hashes the seed into the initial state (consecutive seeds must not give shifted copies of
+// one splitmix stream).
+func NewRng(seed uint64) *Rng {
+	z := seed + 0x1234567
+	z = (z ^ (z >> 30)) * 0xBF58476D1CE4E5B9
+	z = (z ^ (z >> 27)) * 0x94D049BB133111EB
+	z ^= z >> 31
+	z = (z ^ (z >> 33)) * 0xFF51AFD7ED558CCD
+	return &Rng{s: z ^ (z >> 29)}
+}
 func (r *Rng) U64() uint64 {
 	r.s += 0x9E3779B97F4A7C15
 	z := r.s
